@@ -1,22 +1,32 @@
 import RQ.Lemmas.SaveFlush
+import RQ.Lemmas.SpecAgreeFS
 /-!
 # The reject files on disk
 
 `saveRejFiles` (`RQ/Model/Push.lean`, `save_rej_files` of `apply/common.rs`) writes the rendered reject files
 `(name, content)` in list order; per file: unlink what is there, create the file — skipped when its directory
-does not exist (`createFile` answers `NotFound`) — and write the content.  `SaveFlush.saveRejFiles_fileAt` is the
-frame (paths that are no reject path keep their file); this file says what is *at* the reject paths.
+does not exist (`createFile` answers `NotFound`), or when something on the way to it is a regular file (`ENOTDIR`, treated
+like `NotFound` since the repair of the finding `rej-dir-order`: `World.opRej`, `saveRejFiles_cons`) — and write the
+content.  `SaveFlush.saveRejFiles_fileAt` is the frame (paths that are no reject path keep their file); this file says
+what is *at* the reject paths.
 
 * `saveRejFiles_isDir`: `saveRejFiles` neither creates nor removes a directory (`isDir` of every path is
   invariant), so the test "does the directory exist" has the same answer throughout the loop;
 * `rejView`: the loop mirrored on the `fileAt` level — for each entry of the path, in order: the old file is
   unlinked *first*, so if the directory exists the path then holds `(content, 0o644)`, and if it does not the
   path holds nothing (a stale reject file disappears even though no new one is written);
-* `saveRejFiles_written`: `fileAt w'.fs key = rejView w.fs rejs key`, at every path;
+* `saveRejFiles_written`: `fileAt w'.fs key = rejView w.fs rejs key`, provided that wherever the loop meets an entry
+  for `key` whose path leads through a regular file (the entry is bypassed *before* the unlink), the directory of `key`
+  does not exist and nothing is at `key` (`PathOk`, asked for as an invariant of the worlds).  The model's file system
+  does not force the parents of a node to be directories; on trees that do (`Tight.WFo`) `PathOk` holds
+  (`ParRefine.pathOk_of_wfo`).  Two readings need no well-formedness: `saveRejFiles_written_of_dirs` (the directory of
+  `key` exists with all directories leading to it) and `saveRejFiles_written_of_clear` (no regular file on the way to
+  `key`, and no reject of the list goes to a path on the way to `key`);
 * `rejView_of_uniform`, `rejView_no_dir`: what that is when all rejects of a path carry the same content;
 * `rollbackAndSaveBackups_isDir`: the backups that follow create directories below `.pc` only, so the directory
   test for a path outside `.pc` may be made on the final tree;
-* `applyPatches_rej_on_disk`: the assembled statement for `applyPatches` (restated as `C13_rej_on_disk`).
+* `applyPatches_rej_on_disk`, `applyPatches_rej_no_dir`: the assembled statements for `applyPatches` (restated as
+  `C13_rej_on_disk`, `C13_rej_no_dir`).
 -/
 namespace RQ.Flush
 open RQ RQ.Push
@@ -181,10 +191,16 @@ theorem saveRejFiles_isDir (rejs : List (Bytes × Bytes)) : ∀ (w w' : World), 
   | cons x rest ih =>
     intro w w' h p
     obtain ⟨name, content⟩ := x
-    unfold saveRejFiles at h
+    rw [saveRejFiles_cons] at h
     split at h
     · cases h
     · rename_i k hk
+      split at h
+      · split at h
+        · cases h
+        · split at h
+          · cases h
+          · exact ih _ w' h p
       have hcont : ∀ w0 : World, w0.fs.isDir p = w.fs.isDir p →
           (match w0.op (.createFile k) with
             | .notFound w' => saveRejFiles w' rest
@@ -239,89 +255,284 @@ theorem rejStep_cons_ne {fs : FS} {key : Key} {cur : Option (Bytes × Nat)} {nam
     rejStep fs key cur ((name, content) :: rest) = rejStep fs key cur rest := by
   rw [rejStep, if_neg h]
 
-/-- the induction behind `saveRejFiles_written`: `fs0` is any file system with the directories of `w.fs` -/
-theorem saveRejFiles_written_aux (fs0 : FS) (key : Key) (rejs : List (Bytes × Bytes)) :
-    ∀ (w w' : World), (∀ p, w.fs.isDir p = fs0.isDir p) → saveRejFiles w rejs = .ok w' →
-      fileAt w'.fs key = rejStep fs0 key (fileAt w.fs key) rejs := by
-  induction rejs with
-  | nil =>
-    intro w w' _ h
-    unfold saveRejFiles at h
-    cases h
-    rfl
-  | cons x rest ih =>
-    intro w w' hdir h
-    obtain ⟨name, content⟩ := x
-    unfold saveRejFiles at h
-    split at h
-    · cases h
-    · rename_i k hk
-      -- what follows the unlink, from a world `w0` with no file at `k`, the files of `w` elsewhere, and
-      -- the directories of `w`
-      have hcont : ∀ w0 : World, fileAt w0.fs k = none →
-          (∀ key', key' ≠ k → fileAt w0.fs key' = fileAt w.fs key') →
-          (∀ p, w0.fs.isDir p = fs0.isDir p) →
+/-- What the mirror `rejStep` needs to know about a file system on which the loop meets an entry for `key`.
+`save_rej_files` bypasses an entry whose path leads through a regular file (`ENOTDIR`); `rejStep` decides by the
+directory test alone.  The two agree if, on such a file system, the directory of `key` does not exist and nothing is
+at `key` — which is so on every tree whose nodes have directories as parents. -/
+def PathOk (fs : FS) (key : Key) : Prop :=
+  fs.fileOnPath key = true → fs.isDir key.dropLast = false ∧ fileAt fs key = none
+
+theorem pathOk_of_clear {fs : FS} {key : Key} (h : fs.fileOnPath key = false) : PathOk fs key := by
+  intro h'; rw [h] at h'; cases h'
+
+/-- the loop entry by entry -/
+theorem saveRejFiles_cons_bind (w : World) (x : Bytes × Bytes) (rest : List (Bytes × Bytes)) :
+    saveRejFiles w (x :: rest) =
+      match saveRejFiles w [x] with
+      | .ok w1 => saveRejFiles w1 rest
+      | .error e => .error e := by
+  obtain ⟨name, content⟩ := x
+  rw [saveRejFiles_cons, saveRejFiles_cons]
+  cases safeKey name with
+  | none => rfl
+  | some k =>
+    simp only
+    have hnil : ∀ w1 : World, saveRejFiles w1 [] = .ok w1 := fun w1 => by rw [saveRejFiles]
+    split
+    · split
+      · rfl
+      · split
+        · rfl
+        · rw [hnil]
+    · have hcont : ∀ w0 : World,
           (match w0.op (.createFile k) with
             | .notFound w' => saveRejFiles w' rest
             | .failed w' => .error (.err, w')
             | .ok w' =>
               match w'.op (.write k content) with
               | .ok w'' => saveRejFiles w'' rest
-              | .notFound w'' | .failed w'' => .error (.err, w'')) = .ok w' →
-          fileAt w'.fs key = rejStep fs0 key (fileAt w.fs key) ((name, content) :: rest) := by
-        intro w0 n0 a0 d0 h
-        split at h
-        · -- the directory does not exist: nothing is written
-          rename_i w1 hop
-          obtain ⟨g0, g1, _⟩ := op_notFound_run hop
-          have hnd : fs0.isDir k.dropLast = false := by
-            rw [← d0]; exact createFile_notFound_isDir g0
-          have d1 : ∀ p, w1.fs.isDir p = fs0.isDir p := fun p => by rw [g1]; exact d0 p
-          rw [ih w1 w' d1 h, g1]
+              | .notFound w'' | .failed w'' => .error (.err, w'')) =
+          match (match w0.op (.createFile k) with
+            | .notFound w' => saveRejFiles w' []
+            | .failed w' => .error (.err, w')
+            | .ok w' =>
+              match w'.op (.write k content) with
+              | .ok w'' => saveRejFiles w'' []
+              | .notFound w'' | .failed w'' => .error (.err, w'')) with
+          | .ok w1 => saveRejFiles w1 rest
+          | .error e => .error e := by
+        intro w0
+        cases w0.op (.createFile k) with
+        | notFound w1 => simp only [hnil]
+        | failed w1 => rfl
+        | ok w1 =>
+          simp only
+          cases w1.op (.write k content) with
+          | ok w2 => simp only [hnil]
+          | notFound w2 => rfl
+          | failed w2 => rfl
+      cases w.op (.removeFile k) with
+      | failed w0 => rfl
+      | ok w0 => exact hcont w0
+      | notFound w0 => exact hcont w0
+
+theorem rejStep_cons_one (fs : FS) (key : Key) (cur : Option (Bytes × Nat)) (x : Bytes × Bytes)
+    (rest : List (Bytes × Bytes)) :
+    rejStep fs key cur (x :: rest) = rejStep fs key (rejStep fs key cur [x]) rest := by
+  obtain ⟨name, content⟩ := x
+  by_cases hk : safeKey name = some key
+  · rw [rejStep_cons_self hk, rejStep_cons_self hk]; rfl
+  · rw [rejStep_cons_ne hk, rejStep_cons_ne hk]; rfl
+
+/-- one entry: `fs0` is any file system with the directories of `w.fs` -/
+theorem saveRejFiles_one_written (fs0 : FS) (key : Key) (name content : Bytes) (w w' : World)
+    (hdir : ∀ p, w.fs.isDir p = fs0.isDir p) (hok : PathOk w.fs key)
+    (h : saveRejFiles w [(name, content)] = .ok w') :
+    fileAt w'.fs key = rejStep fs0 key (fileAt w.fs key) [(name, content)] := by
+  have ih : ∀ (w w' : World), (∀ p, w.fs.isDir p = fs0.isDir p) → saveRejFiles w [] = .ok w' →
+      fileAt w'.fs key = rejStep fs0 key (fileAt w.fs key) [] := by
+    intro w w' _ h
+    rw [saveRejFiles] at h
+    cases h
+    rfl
+  generalize hrest : ([] : List (Bytes × Bytes)) = rest at h ih
+  rw [saveRejFiles_cons] at h
+  split at h
+  · cases h
+  · rename_i k hk
+    split at h
+    · -- the path leads through a regular file: the entry is bypassed, the file system is untouched
+      rename_i hfp
+      split at h
+      · cases h
+      · split at h
+        · cases h
+        · rw [ih ((w.logged (.removeFile k)).logged (.createFile k)) w' hdir h]
+          subst hrest
+          show fileAt w.fs key = _
           by_cases hkk : k = key
           · subst hkk
-            rw [rejStep_cons_self hk, n0, hnd]
+            obtain ⟨hnd, hnone⟩ := hok hfp
+            rw [rejStep_cons_self hk, ← hdir, hnd, hnone]
             rfl
           · have hne : safeKey name ≠ some key := by
               rw [hk]; intro h'; injection h' with h'; exact hkk h'
-            rw [rejStep_cons_ne hne, a0 key (fun h' => hkk h'.symm)]
-        · cases h
-        · rename_i w1 hop
-          obtain ⟨g1, _⟩ := op_ok_run hop
-          have hd : fs0.isDir k.dropLast = true := by
-            rw [← d0]; exact createFile_ok_isDir g1
-          split at h
-          · rename_i w2 hop2
-            obtain ⟨e1, _⟩ := op_write_ok hop2
-            have d2 : ∀ p, w2.fs.isDir p = fs0.isDir p := fun p => by
-              rw [op_ok_isDir rfl hop2 p, op_ok_isDir rfl hop p]; exact d0 p
-            rw [ih w2 w' d2 h]
-            by_cases hkk : k = key
-            · subst hkk
-              rw [rejStep_cons_self hk, hd, e1, appendBytes_fileAt_self, createFile_fileAt_new g1 n0]
-              rfl
-            · have hne : safeKey name ≠ some key := by
-                rw [hk]; intro h'; injection h' with h'; exact hkk h'
-              have hkk' : key ≠ k := fun h' => hkk h'.symm
-              rw [rejStep_cons_ne hne, e1, appendBytes_fileAt_ne _ _ _ _ hkk', createFile_fileAt_ne g1 hkk',
-                a0 key hkk']
-          · cases h
-          · cases h
+            rw [rejStep_cons_ne hne]
+            rfl
+    -- what follows the unlink, from a world `w0` with no file at `k`, the files of `w` elsewhere, and
+    -- the directories of `w`
+    have hcont : ∀ w0 : World, fileAt w0.fs k = none →
+        (∀ key', key' ≠ k → fileAt w0.fs key' = fileAt w.fs key') →
+        (∀ p, w0.fs.isDir p = fs0.isDir p) →
+        (match w0.op (.createFile k) with
+          | .notFound w' => saveRejFiles w' rest
+          | .failed w' => .error (.err, w')
+          | .ok w' =>
+            match w'.op (.write k content) with
+            | .ok w'' => saveRejFiles w'' rest
+            | .notFound w'' | .failed w'' => .error (.err, w'')) = .ok w' →
+        fileAt w'.fs key = rejStep fs0 key (fileAt w.fs key) ((name, content) :: rest) := by
+      intro w0 n0 a0 d0 h
       split at h
-      · cases h
-      · rename_i w0 hop
-        obtain ⟨g1, _⟩ := op_ok_run hop
-        exact hcont w0 (removeFile_fileAt_self g1) (fun key' hk' => removeFile_fileAt_ne g1 hk')
-          (fun p => by rw [op_ok_isDir rfl hop p]; exact hdir p) h
-      · rename_i w0 hop
+      · -- the directory does not exist: nothing is written
+        rename_i w1 hop
         obtain ⟨g0, g1, _⟩ := op_notFound_run hop
-        exact hcont w0 (by rw [g1]; exact removeFile_notFound_fileAt g0) (fun key' _ => by rw [g1])
-          (fun p => by rw [g1]; exact hdir p) h
+        have hnd : fs0.isDir k.dropLast = false := by
+          rw [← d0]; exact createFile_notFound_isDir g0
+        have d1 : ∀ p, w1.fs.isDir p = fs0.isDir p := fun p => by rw [g1]; exact d0 p
+        rw [ih w1 w' d1 h, g1]
+        by_cases hkk : k = key
+        · subst hkk
+          rw [rejStep_cons_self hk, n0, hnd]
+          rfl
+        · have hne : safeKey name ≠ some key := by
+            rw [hk]; intro h'; injection h' with h'; exact hkk h'
+          rw [rejStep_cons_ne hne, a0 key (fun h' => hkk h'.symm)]
+      · cases h
+      · rename_i w1 hop
+        obtain ⟨g1, _⟩ := op_ok_run hop
+        have hd : fs0.isDir k.dropLast = true := by
+          rw [← d0]; exact createFile_ok_isDir g1
+        split at h
+        · rename_i w2 hop2
+          obtain ⟨e1, _⟩ := op_write_ok hop2
+          have d2 : ∀ p, w2.fs.isDir p = fs0.isDir p := fun p => by
+            rw [op_ok_isDir rfl hop2 p, op_ok_isDir rfl hop p]; exact d0 p
+          rw [ih w2 w' d2 h]
+          by_cases hkk : k = key
+          · subst hkk
+            rw [rejStep_cons_self hk, hd, e1, appendBytes_fileAt_self, createFile_fileAt_new g1 n0]
+            rfl
+          · have hne : safeKey name ≠ some key := by
+              rw [hk]; intro h'; injection h' with h'; exact hkk h'
+            have hkk' : key ≠ k := fun h' => hkk h'.symm
+            rw [rejStep_cons_ne hne, e1, appendBytes_fileAt_ne _ _ _ _ hkk', createFile_fileAt_ne g1 hkk',
+              a0 key hkk']
+        · cases h
+        · cases h
+    split at h
+    · cases h
+    · rename_i w0 hop
+      obtain ⟨g1, _⟩ := op_ok_run hop
+      exact hcont w0 (removeFile_fileAt_self g1) (fun key' hk' => removeFile_fileAt_ne g1 hk')
+        (fun p => by rw [op_ok_isDir rfl hop p]; exact hdir p) h
+    · rename_i w0 hop
+      obtain ⟨g0, g1, _⟩ := op_notFound_run hop
+      exact hcont w0 (by rw [g1]; exact removeFile_notFound_fileAt g0) (fun key' _ => by rw [g1])
+        (fun p => by rw [g1]; exact hdir p) h
 
-/-- **what `saveRejFiles` leaves on disk**, at every path: the loop mirrored by `rejView` -/
-theorem saveRejFiles_written (rejs : List (Bytes × Bytes)) (w w' : World) (h : saveRejFiles w rejs = .ok w') :
-    ∀ key, fileAt w'.fs key = rejView w.fs rejs key :=
-  fun key => saveRejFiles_written_aux w.fs key rejs w w' (fun _ => rfl) h
+
+/-- **what `saveRejFiles` leaves on disk** at the path `key`: the loop mirrored by `rejStep`, provided `PathOk`
+holds wherever the loop meets an entry for `key`.  This is asked for as an invariant `J` of the worlds, kept by
+every single entry of the list; `fs0` is any file system with the directories of `w.fs`. -/
+theorem saveRejFiles_written_aux (fs0 : FS) (key : Key) (J : World → Prop) (hJ : ∀ w, J w → PathOk w.fs key)
+    (rejs : List (Bytes × Bytes)) :
+    (∀ (w : World) (x : Bytes × Bytes) (w1 : World), x ∈ rejs → J w → saveRejFiles w [x] = .ok w1 → J w1) →
+    ∀ (w w' : World), J w → (∀ p, w.fs.isDir p = fs0.isDir p) → saveRejFiles w rejs = .ok w' →
+      fileAt w'.fs key = rejStep fs0 key (fileAt w.fs key) rejs := by
+  induction rejs with
+  | nil =>
+    intro _ w w' _ _ h
+    rw [saveRejFiles] at h
+    cases h
+    rfl
+  | cons x rest ih =>
+    intro hstep w w' hj hdir h
+    rw [saveRejFiles_cons_bind] at h
+    split at h
+    · rename_i w1 h1
+      obtain ⟨name, content⟩ := x
+      have hj1 : J w1 := hstep w _ w1 (List.mem_cons_self ..) hj h1
+      have hd1 : ∀ p, w1.fs.isDir p = fs0.isDir p := fun p => by
+        rw [saveRejFiles_isDir _ w w1 h1 p]; exact hdir p
+      rw [ih (fun w x w1 hx => hstep w x w1 (List.mem_cons_of_mem _ hx)) w1 w' hj1 hd1 h,
+        saveRejFiles_one_written fs0 key name content w w1 hdir (hJ w hj) h1, ← rejStep_cons_one]
+    · cases h
+
+/-- the same with `fs0 := w.fs` -/
+theorem saveRejFiles_written (key : Key) (J : World → Prop) (hJ : ∀ w, J w → PathOk w.fs key)
+    (rejs : List (Bytes × Bytes))
+    (hstep : ∀ (w : World) (x : Bytes × Bytes) (w1 : World), x ∈ rejs → J w → saveRejFiles w [x] = .ok w1 → J w1)
+    (w w' : World) (hj : J w) (h : saveRejFiles w rejs = .ok w') :
+    fileAt w'.fs key = rejView w.fs rejs key :=
+  saveRejFiles_written_aux w.fs key J hJ rejs hstep w w' hj (fun _ => rfl) h
+
+/-- no regular file on the way to a path whose directory exists with all directories leading to it -/
+theorem fileOnPath_of_dirs {fs : FS} {key : Key} (h : ∀ q, q <+: key.dropLast → fs.isDir q = true) :
+    fs.fileOnPath key = false := by
+  rw [Agree.fileOnPath_false_iff]
+  intro q hs hq hf
+  have hpre : q <+: key.dropLast := by
+    have h1 := hs.1
+    have : key.dropLast.take q.length = q := by
+      rw [List.dropLast_eq_take, List.take_take, Nat.min_eq_left (by omega)]
+      exact hs.2
+    rw [← this]
+    exact List.take_prefix _ _
+  have hd := h q hpre
+  unfold FS.isDir at hd
+  rw [Bool.or_eq_true] at hd
+  rcases hd with hd | hd
+  · exact hq (by simpa using hd)
+  · have : fs.lookup q = some .dir := by simpa using hd
+    rw [this] at hf
+    exact hf
+
+/-- **first reading**: the directory of `key` exists with all directories leading to it — then no entry for `key` is
+bypassed (`saveRejFiles` makes and removes no directory, so this stays so through the loop) -/
+theorem saveRejFiles_written_of_dirs (rejs : List (Bytes × Bytes)) (w w' : World) (key : Key)
+    (hup : ∀ q, q <+: key.dropLast → w.fs.isDir q = true) (h : saveRejFiles w rejs = .ok w') :
+    fileAt w'.fs key = rejView w.fs rejs key :=
+  saveRejFiles_written key (fun w => ∀ q, q <+: key.dropLast → w.fs.isDir q = true)
+    (fun _ hj => pathOk_of_clear (fileOnPath_of_dirs hj)) rejs
+    (fun w x w1 _ hj h1 q hq => by rw [saveRejFiles_isDir _ w w1 h1 q]; exact hj q hq) w w' hup h
+
+theorem isFile_iff_fileAt_isSome (fs : FS) (q : Key) : Agree.IsFile (fs.lookup q) ↔ (fileAt fs q).isSome = true := by
+  unfold fileAt
+  cases fs.lookup q with
+  | none => simp [Agree.IsFile]
+  | some n => cases n <;> simp [Agree.IsFile]
+
+/-- `fileOnPath` from the regular files at the strict prefixes -/
+theorem fileOnPath_of_fileAt {a b : FS} {key : Key}
+    (h : ∀ q, Agree.SPre q key → q ≠ [] → fileAt b q = fileAt a q) : b.fileOnPath key = a.fileOnPath key := by
+  have hh : ∀ {a b : FS}, (∀ q, Agree.SPre q key → q ≠ [] → fileAt b q = fileAt a q) → a.fileOnPath key = false →
+      b.fileOnPath key = false := by
+    intro a b h ha
+    rw [Agree.fileOnPath_false_iff] at ha ⊢
+    intro q hs hq hf
+    apply ha q hs hq
+    rw [isFile_iff_fileAt_isSome] at hf ⊢
+    rw [← h q hs hq]; exact hf
+  cases ha : a.fileOnPath key with
+  | false => exact hh h ha
+  | true =>
+    cases hb : b.fileOnPath key with
+    | true => rfl
+    | false => rw [hh (fun q hs hq => (h q hs hq).symm) hb] at ha; cases ha
+
+/-- **second reading**: no regular file on the way to `key`, and no reject of the list goes to a path on the way to
+`key` — then this stays so through the loop and no entry for `key` is bypassed -/
+theorem saveRejFiles_written_of_clear (rejs : List (Bytes × Bytes)) (w w' : World) (key : Key)
+    (hclear : w.fs.fileOnPath key = false) (hpre : ∀ q, isRejKey rejs q → ¬ Agree.SPre q key)
+    (h : saveRejFiles w rejs = .ok w') :
+    fileAt w'.fs key = rejView w.fs rejs key :=
+  saveRejFiles_written key (fun w => w.fs.fileOnPath key = false) (fun _ hj => pathOk_of_clear hj) rejs
+    (fun w x w1 hx hj h1 => by
+      rw [← hj]
+      apply fileOnPath_of_fileAt
+      intro q hs _
+      refine (saveRejFiles_fileAt [x] w w1 h1).2 q ?_
+      rintro ⟨r, hr, hrq⟩
+      simp only [List.mem_singleton] at hr
+      subst hr
+      exact hpre q ⟨r, hx, hrq⟩ hs) w w' hclear h
+
+/-- the regular files on the way to `key` are untouched by a loop none of whose rejects goes there -/
+theorem saveRejFiles_fileOnPath (rejs : List (Bytes × Bytes)) (w w' : World) (key : Key)
+    (hpre : ∀ q, isRejKey rejs q → ¬ Agree.SPre q key) (h : saveRejFiles w rejs = .ok w') :
+    w'.fs.fileOnPath key = w.fs.fileOnPath key :=
+  fileOnPath_of_fileAt (fun q hs _ => (saveRejFiles_fileAt rejs w w' h).2 q (fun hq => hpre q hq hs))
 
 /-! ### reading `rejView` -/
 
@@ -548,16 +759,34 @@ theorem rollbackAndSaveBackups_isDir (ss : List Status) : ∀ (w w' : World) (me
 
 /-! ## (4) `applyPatches` -/
 
-/-- A real (non-dry) run of `applyPatches` that succeeds, for a path `key` outside `.pc`: the disk holds there
-what `rejView` prescribes over the tree `w2` the save phase (saving the cache, cleaning empty directories) left,
-and the directory of `key` exists in the final tree exactly if it existed in `w2`. -/
-theorem applyPatches_rejView (w w' : World) (cfg : Cfg) (range : List Series.Entry) (st : St) (final k : Nat)
+/-- the paths on the way to a path outside `.pc` are outside `.pc` -/
+theorem not_isPcKey_of_prefix {q key : Key} (h : ¬ isPcKey key) (hq : q <+: key) : ¬ isPcKey q := by
+  unfold isPcKey at *
+  by_cases hn : q = []
+  · rw [hn]; simp
+  · have : q = key.take q.length := (List.prefix_iff_eq_take.mp hq)
+    rw [this, head?_take_of_ne_nil key _ (by rw [← this]; exact hn)]
+    exact h
+
+theorem prefix_dropLast_of_spre {q key : Key} (hs : Agree.SPre q key) : q <+: key.dropLast := by
+  have h1 := hs.1
+  have : key.dropLast.take q.length = q := by
+    rw [List.dropLast_eq_take, List.take_take, Nat.min_eq_left (by omega)]
+    exact hs.2
+  rw [← this]
+  exact List.take_prefix _ _
+
+/-- A real (non-dry) run of `applyPatches` that succeeds: the worlds `w2` the save phase (saving the cache, cleaning
+empty directories) left and `w3` after the reject files; outside `.pc` the final tree has the regular files and the
+directories of `w3` (the backups that follow write below `.pc` only). -/
+theorem applyPatches_rejStages (w w' : World) (cfg : Cfg) (range : List Series.Entry) (st : St) (final k : Nat)
     (rejs : List (Bytes × Bytes)) (hdry : cfg.dryRun = false)
     (hloop : applyLoop w.fs cfg range 0 {} = .ok (st, final, rejs))
     (h : applyPatches w cfg range = .ok (w', k)) :
-    ∃ w1 dirs w2, saveAll w st.mem [] = .ok (w1, dirs) ∧ cleanAll w1 dirs = .ok w2 ∧
-      ∀ key, ¬ isPcKey key →
-        fileAt w'.fs key = rejView w2.fs rejs key ∧ w'.fs.isDir key.dropLast = w2.fs.isDir key.dropLast := by
+    ∃ w1 dirs w2 w3, saveAll w st.mem [] = .ok (w1, dirs) ∧ cleanAll w1 dirs = .ok w2 ∧
+      saveRejFiles w2 rejs = .ok w3 ∧
+      (∀ key, ¬ isPcKey key → fileAt w'.fs key = fileAt w3.fs key) ∧
+      (∀ p, ¬ isPcKey p → w'.fs.isDir p = w3.fs.isDir p) := by
   unfold applyPatches at h
   rw [hloop] at h
   simp only [hdry, Bool.false_eq_true, if_false] at h
@@ -567,53 +796,62 @@ theorem applyPatches_rejView (w w' : World) (cfg : Cfg) (range : List Series.Ent
     split at h
     · cases h
     · rename_i w2 hclean
-      refine ⟨w1, dirs, w2, hsave, hclean, ?_⟩
       split at h
       · cases h
       · rename_i w3 hrej
-        have a3 : ∀ key, fileAt w3.fs key = rejView w2.fs rejs key := saveRejFiles_written rejs w2 w3 hrej
-        have d3 : ∀ p, w3.fs.isDir p = w2.fs.isDir p := saveRejFiles_isDir rejs w2 w3 hrej
+        refine ⟨w1, dirs, w2, w3, hsave, hclean, hrej, ?_⟩
         split at h
         · split at h
           · cases h
           · rename_i w4 mem4 hbk
             cases h
-            intro key hp
             obtain ⟨_, b2⟩ := rollbackAndSaveBackups_fileAt _ _ _ _ _ _ hbk
-            rw [b2 key hp, a3 key,
-              rollbackAndSaveBackups_isDir _ _ _ _ _ _ hbk _ (not_isPcKey_dropLast hp), d3]
-            exact ⟨rfl, rfl⟩
+            exact ⟨b2, rollbackAndSaveBackups_isDir _ _ _ _ _ _ hbk⟩
         · cases h
-          intro key _
-          exact ⟨a3 key, d3 _⟩
+          exact ⟨fun _ _ => rfl, fun _ _ => rfl⟩
 
 /-- **the reject files are on disk.**  A real run of `applyPatches` that succeeds, a rendered reject
 `(name, content)` whose path `key` is outside `.pc`, no other reject for that path with a different content,
-and the directory of `key` exists in the final tree: the file at `key` is `content` with mode 644. -/
+and the directory of `key` exists in the final tree, with the directories leading to it (`hdir`; so nothing on
+the way to `key` is a regular file, and the reject was not bypassed): the file at `key` is `content` with mode 644. -/
 theorem applyPatches_rej_on_disk (w w' : World) (cfg : Cfg) (range : List Series.Entry) (st : St) (final k : Nat)
     (rejs : List (Bytes × Bytes)) (hdry : cfg.dryRun = false)
     (hloop : applyLoop w.fs cfg range 0 {} = .ok (st, final, rejs))
     (h : applyPatches w cfg range = .ok (w', k))
     (name content : Bytes) (key : Key) (hmem : (name, content) ∈ rejs) (hkey : safeKey name = some key)
     (huniq : ∀ r ∈ rejs, safeKey r.1 = some key → r.2 = content)
-    (hpc : ¬ isPcKey key) (hdir : w'.fs.isDir key.dropLast = true) :
+    (hpc : ¬ isPcKey key) (hdir : ∀ q, q <+: key.dropLast → w'.fs.isDir q = true) :
     fileAt w'.fs key = some (content, 0o644) := by
-  obtain ⟨w1, dirs, w2, _, _, hv⟩ := applyPatches_rejView w w' cfg range st final k rejs hdry hloop h
-  obtain ⟨h1, h2⟩ := hv key hpc
-  rw [h1]
-  exact rejView_of_uniform (by rw [← h2]; exact hdir) huniq ⟨(name, content), hmem, hkey⟩
+  obtain ⟨w1, dirs, w2, w3, _, _, hrej, hf, hd⟩ := applyPatches_rejStages w w' cfg range st final k rejs hdry hloop h
+  have hup : ∀ q, q <+: key.dropLast → w2.fs.isDir q = true := by
+    intro q hq
+    rw [← saveRejFiles_isDir rejs w2 w3 hrej q,
+      ← hd q (not_isPcKey_of_prefix (not_isPcKey_dropLast hpc) hq)]
+    exact hdir q hq
+  rw [hf key hpc, saveRejFiles_written_of_dirs rejs w2 w3 key hup hrej]
+  exact rejView_of_uniform (hup _ (List.prefix_refl _)) huniq ⟨(name, content), hmem, hkey⟩
 
 /-- the other case: the directory of the reject path does not exist in the final tree — no reject file, and a
-stale one from an earlier run has been unlinked -/
+stale one from an earlier run has been unlinked; provided nothing on the way to `key` is a regular file in the final
+tree (`hpath`) and no reject of the push goes to a path on the way to `key` (`hpre`) — so that `hpath` held already
+when the loop met the rejects for `key`, and they were not bypassed with `ENOTDIR` before the unlink -/
 theorem applyPatches_rej_no_dir (w w' : World) (cfg : Cfg) (range : List Series.Entry) (st : St) (final k : Nat)
     (rejs : List (Bytes × Bytes)) (hdry : cfg.dryRun = false)
     (hloop : applyLoop w.fs cfg range 0 {} = .ok (st, final, rejs))
     (h : applyPatches w cfg range = .ok (w', k))
-    (key : Key) (hex : isRejKey rejs key) (hpc : ¬ isPcKey key) (hdir : w'.fs.isDir key.dropLast = false) :
+    (key : Key) (hex : isRejKey rejs key) (hpc : ¬ isPcKey key) (hdir : w'.fs.isDir key.dropLast = false)
+    (hpath : w'.fs.fileOnPath key = false) (hpre : ∀ q, isRejKey rejs q → ¬ q <+: key.dropLast) :
     fileAt w'.fs key = none := by
-  obtain ⟨w1, dirs, w2, _, _, hv⟩ := applyPatches_rejView w w' cfg range st final k rejs hdry hloop h
-  obtain ⟨h1, h2⟩ := hv key hpc
-  rw [h1]
-  exact rejView_no_dir (by rw [← h2]; exact hdir) hex
+  obtain ⟨w1, dirs, w2, w3, _, _, hrej, hf, hd⟩ := applyPatches_rejStages w w' cfg range st final k rejs hdry hloop h
+  have hpre' : ∀ q, isRejKey rejs q → ¬ Agree.SPre q key := fun q hq hs => hpre q hq (prefix_dropLast_of_spre hs)
+  have hclear : w2.fs.fileOnPath key = false := by
+    rw [← saveRejFiles_fileOnPath rejs w2 w3 key hpre' hrej, ← hpath]
+    apply fileOnPath_of_fileAt
+    intro q hs _
+    exact (hf q (not_isPcKey_of_prefix (not_isPcKey_dropLast hpc) (prefix_dropLast_of_spre hs))).symm
+  rw [hf key hpc, saveRejFiles_written_of_clear rejs w2 w3 key hclear hpre' hrej]
+  refine rejView_no_dir ?_ hex
+  rw [← saveRejFiles_isDir rejs w2 w3 hrej, ← hd _ (not_isPcKey_dropLast hpc)]
+  exact hdir
 
 end RQ.Flush
